@@ -655,7 +655,7 @@ def run_gama(gama, wd, tag, net, alg, text=False):
             f.unlink()
     cmd = [str(gama), str(p), "--algorithm", alg, "--xml", str(x)] + (["--text", str(t)] if text else [])
     try:
-        rc, out, err = sh(cmd, timeout=120)
+        rc, out, err = sh(cmd, timeout=40)       # a normal run takes < 1 s; a comparator that is not an order can make std::map loop
     except Exception as e:   # timeout
         return {"error": f"timeout/{e}", "obs": [], "crash": True}, ""
     if rc in (86, 87) or rc < 0:
@@ -722,7 +722,11 @@ def shrink(gama, wd, net, spec, alg, bad):
             return False
         if ra.get("error") is not None and "status" not in want:
             return False
-        return bool(want & set(bad_signature(b)))
+        # the reduced pair must fail in the SAME way: a violated field the original pair did not show (typically
+        # points removed / dof changed because dropping observations made the network singular, where the order of
+        # the input decides which unknowns go: C20's subject) means ddmin walked into another phenomenon
+        sig = set(bad_signature(b))
+        return bool(sig) and sig <= want
 
     uids = M.all_uids(net)
     if len(uids) > 60 or not fails(uids):
@@ -835,7 +839,8 @@ def search_meta(ctx, corr, n, wd, gama):
             continue
         d = wd / f"shr{i}{alg}"
         d.mkdir(exist_ok=True)
-        small, sspec = shrink(gama, d, net, spec, alg, bad)
+        # a pair on which gama-local crashed / timed out is reported as it is (every shrinking step would wait again)
+        small, sspec = (net, spec) if crash else shrink(gama, d, net, spec, alg, bad)
         payload, sbad = failure_payload(gama, d, small, sspec, alg)
         if not sbad:                   # shrinking lost it (should not happen): report the unshrunk pair
             payload, sbad = failure_payload(gama, d, net, spec, alg)
